@@ -36,6 +36,7 @@ def main() -> int:
     ap.add_argument("--props", default=None)
     ap.add_argument("--keep", default=None)
     ap.add_argument("--no-confirm", action="store_true")
+    ap.add_argument("--benign", action="store_true", help="behaviour-preserving change: demo must pass with the change, every check must stay silent")
     args = ap.parse_args()
     change = os.path.abspath(args.change)
     meta = json.load(open(os.path.join(change, "meta.json")))
@@ -66,7 +67,10 @@ def main() -> int:
             result["confirmed"]["suite"] = out.strip()
             result["confirmed"]["suite_passes_with_change"] = out.strip().startswith("209 passed")
             rc1, out1 = sh(f"{PY} {demo}", cwd=scratch, env=env)
-            result["confirmed"]["demo_fails_with_change"] = rc1 != 0
+            if args.benign:
+                result["confirmed"]["demo_passes_with_change"] = rc1 == 0
+            else:
+                result["confirmed"]["demo_fails_with_change"] = rc1 != 0
         for p in props:
             rc, out = sh(f"./check {p} --repo {scratch} --no-evidence", cwd=VERIF)
             fired = []
@@ -82,9 +86,10 @@ def main() -> int:
         shutil.rmtree(scratch, ignore_errors=True)
     caught = [p for p, r in result["checks"].items() if r["exit"] == 1]
     result["caught_by"] = caught
+    result["alarms"] = {p: r for p, r in result["checks"].items() if r["exit"] != 0}
     print(json.dumps(result, indent=1))
     if args.keep:
-        dst = os.path.join(VERIF, "seeded", args.keep)
+        dst = os.path.join(VERIF, "benign" if args.benign else "seeded", args.keep)
         os.makedirs(dst, exist_ok=True)
         for fn in ("patch.diff", "demo.py"):
             shutil.copy(os.path.join(change, fn), os.path.join(dst, fn))
@@ -97,6 +102,8 @@ def main() -> int:
         ]
         meta_out["check_results"] = result["checks"]
         meta_out["caught_by"] = caught
+        if args.benign:
+            meta_out["alarms"] = result["alarms"]
         json.dump(meta_out, open(os.path.join(dst, "meta.json"), "w"), indent=1)
     return 0
 
